@@ -365,6 +365,66 @@ def _version_values(item):
     return out
 
 
+def _tree_listing(root):
+    out = []
+    for d, _dirs, files in os.walk(root):
+        for f in files:
+            out.append(os.path.relpath(os.path.join(d, f), root))
+    return sorted(out)
+
+
+def _recursive_hygiene(item):
+    """Recursive identification unpacks archive members into a private temporary directory: member names chosen by the
+    archive (../x, absolute paths) must not place files anywhere else, and nothing may be left behind."""
+    import tempfile
+
+    import fickling.polyglot as pg
+
+    (wd,) = item
+    out = e1.Out()
+    root = os.path.join(wd, f"rec-{os.getpid()}")
+    for sub_ in ("in", "victim", "tmpbase"):
+        os.makedirs(os.path.join(root, sub_), exist_ok=True)
+    victim = os.path.join(root, "victim")
+    members = {"plain.txt": b"hello", "../victim/escape.txt": b"escaped", "sub/../../victim/escape2.txt": b"escaped",
+               os.path.join(victim, "abs.txt"): b"absolute"}
+    tpath = os.path.join(root, "in", "arch.tar")
+    with tarfile.open(tpath, "w") as tf:
+        for name, content in members.items():
+            info = tarfile.TarInfo(name)
+            info.size = len(content)
+            tf.addfile(info, io.BytesIO(content))
+    zpath = os.path.join(root, "in", "arch.zip")
+    with zipfile.ZipFile(zpath, "w") as z:
+        for name, content in members.items():
+            z.writestr(name, content)
+    for kind, path in (("tar", tpath), ("zip", zpath)):
+        before = sha(path)
+        listing = _tree_listing(root)
+        old_tmp = tempfile.tempdir
+        tempfile.tempdir = os.path.join(root, "tmpbase")
+        cwd = os.getcwd()
+        os.chdir(os.path.join(root, "in"))
+        try:
+            try:
+                quiet(lambda: pg.find_file_properties_recursively(path))
+                how = "returned"
+            except Exception as e:  # noqa: BLE001 - raising is not forbidden (numpy probe of this image); hygiene is judged
+                how = f"raised {type(e).__name__}"
+        finally:
+            os.chdir(cwd)
+            tempfile.tempdir = old_tmp
+        out.stats.inc("recursive_identifications")
+        after = _tree_listing(root)
+        rp = {"engine": "E3", "archive": kind, "members": [m if not os.path.isabs(m) else "<absolute path into victim dir>" for m in members]}
+        if after != listing:
+            out.violate(PROP, f"C17|recursive-identification-writes-files|{kind}", f"find_file_properties_recursively on a {kind} with traversal / absolute "
+                        f"member names ({how}): files appeared {sorted(set(after) - set(listing))[:4]}", rp, 1)
+        if sha(path) != before:
+            out.violate(PROP, f"C17|recursive-identification-modifies-input|{kind}", f"{kind} archive changed", rp, 1)
+    return out
+
+
 def check(tier):
     rep = Report(PROP, tier, level="fault_enumeration")
     subsets = [frozenset(c) for r in range(6) for c in itertools.combinations(MARKERS, r)]
@@ -372,6 +432,7 @@ def check(tier):
         syn = [(s, deep, junk, tr, wd) for s, deep, junk, tr in itertools.product(subsets, (False, True), (False, True), ("none", "pickle", "tar"))]
         e3.pmap(_synthetic, syn, rep, chunksize=8)
         e3.pmap(_version_values, [(wd,)], rep, procs=1)
+        e3.pmap(_recursive_hygiene, [(wd,)], rep, procs=1)
         e3.pmap(_real, [(wd,)], rep, procs=1)
         pairs = list(itertools.product(REAL, repeat=2))
         if tier == "quick":
